@@ -65,7 +65,7 @@ var externalClass = map[string]string{
 	"golang.org/x/exp/maps": "pure", "golang.org/x/exp/slices": "pure",
 	"github.com/FollowTheProcess/collections/dag": "pure", "github.com/lithammer/fuzzysearch/fuzzy": "pure",
 	"mvdan.cc/sh/v3/syntax": "pure", "mvdan.cc/sh/v3/expand": "pure",
-	"fmt": "writer-arg", "io": "writer-arg", "text/template": "writer-arg", "github.com/fatih/color": "writer-arg",
+	"fmt": "writer-arg", "io": "writer-arg", "text/template": "writer-arg", "html/template": "writer-arg", "github.com/fatih/color": "writer-arg",
 	"github.com/juju/ansiterm/tabwriter": "writer-arg", "github.com/FollowTheProcess/msg": "writer-arg", "bufio": "writer-arg",
 	"io/fs": "fs-read", "path/filepath": "fs-read", "path": "pure", "github.com/bmatcuk/doublestar/v4": "fs-read",
 	"github.com/joho/godotenv": "environment",
